@@ -321,6 +321,83 @@ impl Ctx {
     }
 }
 
+/// Differential check of the `Iterator` protocol: the same script of
+/// `next` / `nth` / `size_hint` / `by_ref().skip` steps and one consuming
+/// adaptor (`count`, `last`, `collect`, `step_by`, `skip`, `fold`) is applied
+/// to `it` and to the iterator of the expected items; every answer must agree.
+/// Nothing is asked of an iterator after it has returned `None` (the crate
+/// does not promise fused iterators).
+pub fn iter_protocol<T: PartialEq + std::fmt::Debug + Clone, I: Iterator<Item = T>>(cx: &mut Ctx, tag: &str, mut it: I, expected: &[T], script: u64) -> R {
+    let mut m = expected.iter().cloned();
+    let mut x = script | 1;
+    let mut rnd = move || {
+        x ^= x << 13;
+        x ^= x >> 7;
+        x ^= x << 17;
+        x
+    };
+    let mut remaining = expected.len();
+    let steps = (rnd() % 6) as usize;
+    let mut trace: Vec<String> = vec![];
+    for _ in 0..steps {
+        let r = rnd();
+        let (got, want, what) = match r % 5 {
+            0 | 1 => (cx.must(tag, || it.next())?, m.next(), "next()".to_string()),
+            2 => {
+                let k = (r >> 8) as usize % 4;
+                (cx.must(tag, || it.nth(k))?, m.nth(k), format!("nth({k})"))
+            }
+            3 => {
+                let k = match (r >> 8) % 4 {
+                    0 => remaining.saturating_sub(1),
+                    1 => remaining,
+                    2 => remaining + 1,
+                    _ => (r >> 16) as usize % (remaining + 2),
+                };
+                (cx.must(tag, || it.nth(k))?, m.nth(k), format!("nth({k})"))
+            }
+            _ => {
+                let (lo, hi) = cx.must(tag, || it.size_hint())?;
+                if lo > remaining || hi.is_some_and(|h| h < remaining) {
+                    return Err(Fail::mismatch(&format!("{tag}.size_hint"), format!("{tag}: size_hint() = ({lo}, {hi:?}) with {remaining} items remaining after [{}]", trace.join(", "))));
+                }
+                continue;
+            }
+        };
+        trace.push(what);
+        if got != want {
+            return Err(Fail::mismatch(&format!("{tag}.protocol"), format!("{tag}: after [{}] on a sequence of {} items: got {:?}, expected {:?}", trace.join(", "), expected.len(), got, want)));
+        }
+        remaining = m.len();
+        if want.is_none() {
+            return Ok(());
+        }
+    }
+    let r = rnd();
+    let k = 1 + (r >> 8) as usize % 5;
+    let cap = remaining + 3; // a runaway iterator must not fill the memory
+    let (got, want, what): (Vec<T>, Vec<T>, String) = match r % 6 {
+        0 => (vec![], vec![], {
+            let c = cx.must(tag, || it.take(cap).count())?;
+            let w = m.count();
+            if c != w {
+                return Err(Fail::mismatch(&format!("{tag}.protocol"), format!("{tag}: after [{}]: count() = {c}, expected {w}", trace.join(", "))));
+            }
+            "count()".into()
+        }),
+        1 => (cx.must(tag, || it.take(cap).last().into_iter().collect())?, m.last().into_iter().collect(), "last()".into()),
+        2 => (cx.must(tag, || it.take(cap).collect())?, m.collect(), "collect()".into()),
+        3 => (cx.must(tag, || it.step_by(k).take(cap).collect())?, m.step_by(k).collect(), format!("step_by({k})")),
+        4 => (cx.must(tag, || it.skip(k).take(cap).collect())?, m.skip(k).collect(), format!("skip({k})")),
+        _ => (cx.must(tag, || it.take(cap).fold(vec![], |mut a, t| { a.push(t); a }))?, m.collect(), "fold".into()),
+    };
+    if got != want {
+        let i = (0..got.len().max(want.len())).find(|i| got.get(*i) != want.get(*i)).unwrap_or(0);
+        return Err(Fail::mismatch(&format!("{tag}.protocol"), format!("{tag}: after [{}] then {what} on a sequence of {} items: {} items, expected {}; first difference at {i}: {:?} vs {:?}", trace.join(", "), expected.len(), got.len(), want.len(), got.get(i), want.get(i))));
+    }
+    Ok(())
+}
+
 pub struct CaseReport {
     pub nontrivial: bool,
     pub hash: u64,
